@@ -89,6 +89,8 @@ def render_block(stmts, prefix, ind, out):
             render_block(st[2], path, ind + 1, out)
         elif k == "ev":
             pass
+        elif k == "set":
+            out.append(f'{pad}probe.setflag("{st[1]}", {bool(st[2])})')
         elif k in ("abort", "break", "continue", "return"):
             out.append(pad + k)
         else:
@@ -175,6 +177,8 @@ def conditions_of(prog):
     seen = []
 
     def add(c):
+        if c.startswith("flag:"):
+            return  # program state, not a scripted truth table
         if c not in seen:
             seen.append(c)
 
@@ -431,6 +435,28 @@ def c13_programs(tier):
                 yield emit(wrap(("try", [inner, ("take", "mid")], [("c2", h2)]), "for"))
                 # handler of the outer statement containing a nested try
                 yield emit(wrap(("try", body, [("c2", [("try", [("take", "n1"), ("take", "n2")], [("c1", h1)]), ("take", "n3")])]), "for"))
+    # conditions reading state written by the handlers themselves: a clause may become
+    # enabled by the last statements of another handler (or of the body) within one step
+    SET, CLR = ("set", "F", True), ("set", "F", False)
+    low_handlers = [
+        [("take", "h"), SET],
+        [("take", "h"), SET, ("take", "h2")],
+        [("take", "h"), ("take", "h2"), SET],
+    ]
+    high_handlers = [[("take", "hh"), CLR], [CLR, ("take", "hh")], [("take", "hh"), ("take", "hh2"), CLR], [CLR]]
+    long_body = [("take", "b1"), ("take", "b2"), ("take", "b3"), ("take", "b4")]
+    for hl in low_handlers:
+        for hh in high_handlers:
+            # later clause enabled by the tail of an earlier handler
+            yield emit(wrap(("try", long_body, [("c1", hl), ("flag:F", hh)]), "plain"))
+            # earlier clause enabled by the tail of a later handler
+            yield emit(wrap(("try", long_body, [("flag:F", hh), ("c1", hl)]), "plain"))
+    for hh in high_handlers:
+        # enabled by the body itself, between two of its actions
+        yield emit(wrap(("try", [("take", "b1"), SET, ("take", "b2"), ("take", "b3")], [("c1", [("take", "h")]), ("flag:F", hh)]), "plain"))
+        # nested: the inner handler's tail enables the outer clause
+        inner = ("try", long_body, [("c1", [("take", "h"), SET])])
+        yield emit(wrap(("try", [inner, ("take", "mid")], [("flag:F", hh)]), "plain"))
     # try inside a sub-behaviour which is itself run under an outer try
     for body in C13_BODIES[:2]:
         for h in handlers[:5]:
